@@ -795,9 +795,12 @@ func (i *InvoiceRegistry) processKeySend(ctx invoiceUpdateCtx) error {
 	finalCltvDelta := i.cfg.FinalCltvRejectDelta
 
 	// Pre-check expiry here to prevent inserting an invoice that will not
-	// be settled.
+	// be settled. We don't fail the htlc at this point: if it is a replay
+	// of an htlc that was resolved at a lower height, it has to get the
+	// verdict it got originally, which only the invoice lookup can tell.
+	// A new htlc finds no invoice and is failed there.
 	if ctx.expiry < uint32(ctx.currentHeight+finalCltvDelta) {
-		return errors.New("final expiry too soon")
+		return nil
 	}
 
 	// The invoice database indexes all invoices by payment address, however
@@ -862,9 +865,12 @@ func (i *InvoiceRegistry) processAMP(ctx invoiceUpdateCtx) error {
 	finalCltvDelta := i.cfg.FinalCltvRejectDelta
 
 	// Pre-check expiry here to prevent inserting an invoice that will not
-	// be settled.
+	// be settled. We don't fail the htlc at this point: if it is a replay
+	// of an htlc that was resolved at a lower height, it has to get the
+	// verdict it got originally, which only the invoice lookup can tell.
+	// A new htlc finds no invoice and is failed there.
 	if ctx.expiry < uint32(ctx.currentHeight+finalCltvDelta) {
-		return errors.New("final expiry too soon")
+		return nil
 	}
 
 	// We'll use the sender-generated payment address provided in the HTLC
